@@ -9,7 +9,7 @@ from .props_mixed import f32
 GROUP = dict(name='sim', sources=['h_sim.cpp'],
              repo_sources=['mode.cpp', 'sample.cpp', 'superposed.cpp', 'composite.cpp', 'disjoint.cpp', 'coherent.cpp', 'covariant.cpp',
                            'square_modulated_mode.cpp', 'util/Pauli.C', 'util/random.C', 'util/true_math.c'],
-             driver='sim', libs=())
+             driver='sim', libs=(), thread_mode=True)
 
 
 # the sample-mean workers at sizes whose double loops take billions of iterations: optimised build, no sanitizers, thorough tier only
